@@ -66,10 +66,13 @@ def stat_writers(ctx, pl):
     sname = f.params[2]
     writers: Dict[str, List[str]] = {}
     key_site: Dict[str, Tuple[Func, ast.AST, ast.AST]] = {}
+    all_sites: Dict[str, list] = {}
+    ctx._stat_sites = all_sites
     first_stage_line = min(s.call.lineno for s in pl.stages if not s.inline)
     for n, k, v in stats_stores(ctx, f, sname):
         writers.setdefault(k, []).append("__run_pipeline@%d" % n.lineno)
         key_site[k] = (f, n, v)
+        all_sites.setdefault(k, []).append((f, n, sname))
     for st in pl.stages:
         if st.inline:
             continue
@@ -85,8 +88,11 @@ def stat_writers(ctx, pl):
         if bound is None:
             continue
         for n, k, v in stats_stores(ctx, callee, bound):
-            writers.setdefault(k, []).append("stage %d %s" % (st.index, st.label))
+            lab = "stage %d %s" % (st.index, st.label)
+            if lab not in writers.setdefault(k, []):
+                writers[k].append(lab)
             key_site[k] = (callee, n, v)
+            all_sites.setdefault(k, []).append((callee, n, bound))
         for c in [x for x in own_nodes(callee.node) if isinstance(x, ast.Call)]:
             if any(isinstance(a, ast.Name) and a.id == bound for a in list(c.args) + [kw.value for kw in c.keywords]):
                 tgt = ctx.res.resolve_callee(c, callee)
@@ -125,14 +131,28 @@ def check(ctx) -> None:
     for k, q in sorted(read_keys.items()):
         ok = k in writers
         guard_ok = True
+        gs = []
         if ok:
             g, n, v = key_site[k]
+            sites = getattr(ctx, "_stat_sites", {}).get(k) or [(g, n, None)]
             gcfg = CFG(g.node)
+            store_nodes = {gcfg.node_of(sn) for sg, sn, _b in sites if sg is g}
+            sname_g = next((b for sg, sn, b in sites if sg is g and b), None)
+
+            def satisfied(nd):
+                if nd.id in store_nodes:
+                    return True
+                # paths on which the caller passed no stats object are exempt
+                if nd.kind == "edge" and nd.cond is not None:
+                    t = unparse(nd.cond)
+                    if sname_g and t == "%s is not None" % sname_g and nd.polarity is False:
+                        return True
+                    if sname_g and t == "%s is None" % sname_g and nd.polarity is True:
+                        return True
+                return False
+
+            guard_ok, _ = gcfg.every_path_to_exit_passes(gcfg.entry, satisfied)
             gs = gcfg.guards(gcfg.node_of(n))
-            for c, p in gs:
-                t = unparse(c)
-                if not (" is not None" in t or " is None" in t):
-                    guard_ok = False
         ctx.instance("C18-Z2", "key %r read by %s" % (k, q.split(".")[-2] + "." + q.split(".")[-1]), "", ok=ok and guard_ok)
         if not ok:
             ctx.finding("C18-Z2", "stats:%s:never-written" % k, prog.func(q).loc(), "%s reads statistic %r which no pipeline stage writes" % (q, k))
